@@ -31,6 +31,7 @@
 size_t verif_c17_gk;                 /* ghost signature index (aggverify: into the aggregate; inc_aggregate: into the NEW signatures) */
 uint64_t c17_gk_end;                 /* stream length of the running hash after signature gk: 64 + 96*(index in the whole sequence + 1) */
 uint64_t verif_c17_wpos; unsigned char verif_c17_wexp;   /* watched position of the running hash stream and the expected byte there */
+size_t verif_c17_gb; unsigned char verif_c17_gb_exp;   /* ghost byte index into the output aggregate and the expected byte there (inc_aggregate) */
 int c17_r_ok, c17_pk_canon;          /* harness-computed: r_gk < p; stored x and y of pk_gk < p (named by the loop invariants, which cannot call functions) */
 #ifndef VERIF_NATIVE
 wide c17_exp_r, c17_exp_m, c17_exp_px, c17_exp_py, c17_exp_s;   /* r_gk, m_gk, stored x / y of pk_gk, s_gk as integers */
